@@ -21,7 +21,7 @@ def one(args):
         if r.returncode:
             return name, [("APPLY", 3, [r.stderr.strip()[:200]])]
         for p in props:
-            c = subprocess.run(["/venv/bin/python", "/verif/bsa/check.py", "--property", p, "--repo", wt, "--evidence-dir", ev],
+            c = subprocess.run(["/venv/bin/python", os.environ.get("VERIF_ROOT", "/verif") + "/bsa/check.py", "--property", p, "--repo", wt, "--evidence-dir", ev],
                                capture_output=True, text=True)
             if c.returncode != 0:
                 lines = [l.strip()[:360] for l in c.stdout.splitlines() if l.strip().startswith(("violated:", "ANALYSIS-ERROR"))]
@@ -45,7 +45,7 @@ def main():
         patches = [p for p in patches if os.path.basename(p)[:-5] in a.only.split(",")]
     props = a.props.split(",")
     bad = 0
-    with ThreadPoolExecutor(max_workers=8) as ex:
+    with ThreadPoolExecutor(max_workers=int(os.environ.get("JOBS", "8"))) as ex:
         for name, out in ex.map(one, [(p, props, a.v) for p in patches]):
             if out:
                 bad += 1
